@@ -16,6 +16,27 @@ CLAIMED = {
              "/repo's working tree by a differential run (systematic (p,n) sweep, width sweep, large buffers) with an independent "
              "bit-string oracle.",
         design="§7 C03", technique="Lean 4 proof (induction, Nat div/mod algebra) + correspondence check"),
+    "C02": dict(
+        text="Theorem Spp.C02.framing_exact proves, for every list of well-formed packets with prefixes, every trim threshold, "
+             "every source kind (bytes / file / socket) and every fragmentation into non-empty reads, that the Lean mirror of the "
+             "ccsds_generator loop yields exactly the packets and stops; chunking_independent, source_independent and split_unique "
+             "are corollaries. The mirror is tied to the working tree by differential runs with scripted file/socket sources, the "
+             "trim literal substituted in the real code object, and a reference splitter as oracle.",
+        design="§7 C02", technique="Lean 4 proof (loop invariant, induction on the packet list) + correspondence check"),
+    "C10": dict(
+        text="`frame` is a total Lean function (well-founded on bytes still obtainable) — terminates_bound gives "
+             "(skip+7)*items <= bytes held by the source for every source; complete_consecutive_short proves for arbitrary byte "
+             "strings and all three source kinds that items are complete, consecutive, and the remainder is shorter than a "
+             "complete packet. Tied to the code by a truncation sweep (every cut of valid streams x 3 kinds x read sizes), "
+             "random byte strings, and an item-count cap that turns non-termination into an observable.",
+        design="§7 C10", technique="Lean 4 proof (termination measure, strong induction) + correspondence check"),
+    "C13": dict(
+        text="accessors_create / layout prove for all in-range fields and 1..65536 data bytes that construction yields the CCSDS "
+             "bit layout followed by the data and every accessor returns the value given; accessors_spec is the converse for "
+             "any packet; rejects covers every out-of-range input; reframe shows the framer returns the constructed packet as "
+             "one item under any chunking. Tied to the code by whole-range field sweeps, pairwise boundaries, 16-bit word "
+             "sweeps and an independent string-formatting encoder as oracle.",
+        design="§7 C13", technique="Lean 4 proof (shift/or to sum, omega) + correspondence check"),
 }
 
 NOT_YET = "check not built yet (work in progress; see DESIGN.md §11 build order)"
